@@ -110,3 +110,45 @@ Theorem C09_positions : forall input E ops,
   (forall (A : Type) c c' i, @peek_error A E s c = Err c' i -> conc_peek_position E input ops = Ok (pos_of input i)).
 Proof. exact C09_positions_agree. Qed.
 Print Assumptions C09_positions.
+
+(* ---- custom (data) errors: error.rs make_error / parse_line_col / Display / fix_position (Model/ErrMsg.v, Proofs/ErrMsgProps.v): an error passed through
+        de::Error::custom(err.to_string()) keeps message and position; a custom message is positioned from its OWN text exactly when it ends in
+        ' at line L column C' (digits), and is then left alone by the deserializer; serde's own messages (input-dependent text before ', expected') never are ---- *)
+From Coq Require Import List NArith ZArith Bool Arith Lia ZifyBool ZifyNat ZifyN.
+From SJ Require Import Base.Bytes Base.Utf8 Model.Num Model.ErrMsg Proofs.Utf8Lemmas.
+From SJ Require Import Proofs.ErrMsgProps.
+Theorem C09_custom_no_panic : forall s, utf8_valid s = true -> parse_line_col_chk s = Ok (parse_line_col s).
+Proof. exact (@ErrMsgProps.parse_line_col_chk_no_panic). Qed.
+Print Assumptions C09_custom_no_panic.
+
+Theorem C09_custom_position_iff : forall s l c m',
+  parse_line_col s = Some (l, c, m') <->
+  exists dl dc, s = m' ++ MARK ++ dl ++ COLM ++ dc
+                /\ digits dl /\ dl <> [] /\ dval dl = l /\ l <= usize_max
+                /\ digits dc /\ dc <> [] /\ dval dc = c /\ c <= usize_max.
+Proof. exact (@ErrMsgProps.parse_line_col_iff). Qed.
+Print Assumptions C09_custom_position_iff.
+
+Theorem C09_custom_display_roundtrip : forall m l c, 1 <= l -> l <= usize_max -> c <= usize_max ->
+  parse_line_col (display (mkError m l c)) = Some (l, c, m).
+Proof. exact (@ErrMsgProps.display_parse_roundtrip). Qed.
+Print Assumptions C09_custom_display_roundtrip.
+
+Theorem C09_custom_position_from_text : forall m dl dc (f : bytes -> error),
+  digits dl -> dl <> [] -> dval dl <= usize_max -> digits dc -> dc <> [] -> dval dc <= usize_max ->
+  let e := make_error (m ++ MARK ++ dl ++ COLM ++ dc) in
+  e = mkError m (dval dl) (dval dc)
+  /\ (1 <= dval dl -> fix_position e f = mkError m (dval dl) (dval dc))
+  /\ (dval dl = 0 -> fix_position e f = f m).
+Proof. exact (@ErrMsgProps.custom_position_from_text). Qed.
+Print Assumptions C09_custom_position_from_text.
+
+Theorem C09_custom_unpositioned : forall s f, parse_line_col s = None -> fix_position (make_error s) f = f s.
+Proof. exact (@ErrMsgProps.custom_unpositioned). Qed.
+Print Assumptions C09_custom_unpositioned.
+
+Theorem C09_serde_messages_unpositioned : forall pre E, parse_line_col (32 :: E) = None ->
+  make_error (pre ++ EXPECTED ++ E) = mkError (pre ++ EXPECTED ++ E) 0 0.
+Proof. exact (@ErrMsgProps.serde_expected_unpositioned). Qed.
+Print Assumptions C09_serde_messages_unpositioned.
+
